@@ -582,6 +582,9 @@ func damageCase(goit string, c *Chunk, snap map[string][]byte, tz int, good M, g
 	if mi%5 == 0 {
 		run("reset-hard", "reset", "--hard", "HEAD@{0}")
 	}
+	// a modifying command that loads everything (HEAD, branch, index, config, the HEAD snapshot) and then writes; it comes
+	// last because it moves the branch
+	run("commit", "commit", "-m", "after the damage")
 	c.Lines = append(c.Lines, M{"kind": "state", "st": st, "obs": M{}, "trace": label})
 	dl := len(c.Lines)
 	// damage to an object file: what log lists (if it still succeeds) against what it listed before the damage
